@@ -221,6 +221,13 @@ def c05b(ctx):
     oo.sites = len(st)
     if len(st) != 1 or (st[0].node["rv"].get("op") or {}).get("c", {}).get("s") != "true":
         ctx.fail(oo, Site(dfz, 0, 0), "UndoRegisterCallee::defuse does not set `defused = true`: a completed call would still un-register its callee when the token is dropped")
+    for nb in [x for x in prog.bodies.values() if x.name in ("UndoRegisterCallee::new",)]:
+        ctx.touch(nb)
+        for a in nb.aggregates(r"register_callee::UndoRegisterCallee$"):
+            by = dict(zip(a.node["rv"].get("fields") or [], a.node["rv"]["ops"]))
+            oo.sites += 1
+            if ((by.get("defused") or {}).get("c") or {}).get("s") != "false":
+                ctx.fail(oo, a, "UndoRegisterCallee::new creates the token already defused: a cancelled call never un-registers its callee (phantom dependency, phantom wait-for edge)")
     o = ctx.ob("C05.b", "UndoRegisterCallee/defuse-sites", "K3+K4", "the undo token is defused only after a Hit or when reporting a cycle")
     sites = prog.callers_of(r"register_callee::UndoRegisterCallee::defuse$")
     ctx.floor(o, sites, 2, "defuse call sites")
